@@ -299,28 +299,7 @@ func c02(r *Report) {
 			errorsReturnedRule(r, r.W.Fn("", n), false)
 		}
 		statelessRule(r, r.W.Fn("", "newID"), map[string]bool{}, "IDs repeat once the kept state wraps: two exchanges share a context ID")
-		// every context gets a fresh random ID: the id of each Context built in the core is the
-		// result of newID()
-		{
-			n := 0
-			for _, f := range r.W.Funcs("") {
-				for _, a := range allocsOf(f, M+".Context") {
-					for _, st := range litFieldStores(a)["id"] {
-						n++
-						fresh := true
-						for _, l := range resolveAll(st.Val) {
-							if !isExtractOfCall(l, "M.newID") && !isCallValue(l, "M.newID") {
-								fresh = false
-							}
-						}
-						r.Decide("flow", fnName(f)+": the context ID is a fresh newID()", fresh, "id: <result of newID()>", "a context ID is built from something else than a fresh random ID (a per-session counter, a truncated session ID): IDs repeat across exchanges, and everything keyed by them (HAR entries, marbl frames) is mixed up", st.Pos())
-					}
-				}
-			}
-			if n == 0 {
-				r.Undecided("M.Context.id", "UNRESOLVED: no Context literal with an id")
-			}
-		}
+		contextIDFreshRule(r)
 		// unlink really removes the entry
 		if ul := r.W.Fn("", "unlink"); ul != nil && ul.Blocks != nil {
 			isDel := func(in ssa.Instruction) bool {
@@ -808,4 +787,73 @@ func skipDecisionRule(r *Report) {
 		}
 	}
 	r.Decide("flow", "the upstream round trip is guarded by the context's skip mark and nothing else", guarded, "RoundTrip lies on the false edge of a value that is SkippingRoundTrip() on every path", why+": a request whose modifier asked to skip the round trip (the Via-loop request, which also returns an error) can still be sent upstream", site.Pos())
+}
+
+// responseBoundToRequestRule: every response handed to the response modifier
+// carries this exchange's request: `res.Request = req` lies on every path from
+// the round trip to ModifyResponse, unconditionally (a round tripper may hand
+// back a response whose Request is a clone, for which no context is
+// registered: verifiers and loggers then find no context, or the wrong one).
+// Shared by C02.R2 and C13.R5.
+func responseBoundToRequestRule(r *Report) {
+	h := r.W.Fn("", "Proxy.handle")
+	if h == nil || h.Blocks == nil {
+		r.Undecided("M.Proxy.handle", "UNRESOLVED")
+		return
+	}
+	r.Touch(h)
+	g := G(h)
+	req := requestValue(h)
+	isBind := func(i ssa.Instruction) bool {
+		st, ok := i.(*ssa.Store)
+		if !ok {
+			return false
+		}
+		fa, isFa := st.Addr.(*ssa.FieldAddr)
+		if !isFa || fieldObj(fa).Name() != "Request" || namedOf(fa.X.Type()) != "Response" {
+			return false
+		}
+		for _, l := range resolveAll(st.Val) {
+			if l == req {
+				return true
+			}
+		}
+		return false
+	}
+	n, ok := 0, true
+	for _, c := range calls(h) {
+		if !isResMod(c) {
+			continue
+		}
+		n++
+		if p := g.PathTo([]ssa.Instruction{g.Entry()}, true, isBind, func(i ssa.Instruction) bool { return i == ssa.Instruction(c) }); p != nil {
+			ok = false
+		}
+	}
+	r.Decide("path", "(*M.Proxy).handle: the response given to the response modifier is bound to this exchange's request", n >= 1 && ok, "res.Request = req lies on every path to ModifyResponse", "the binding is skipped on some path (when the round tripper already set a request): response-side modifiers look the context up through a request that is not the one the context was registered for - an API exchange is counted by verifiers, a skip-logging mark is not seen", h.Pos())
+}
+
+// contextIDFreshRule: every context gets a fresh random ID: the id of each
+// Context built in the core is the result of newID(), whole. Shared by
+// C02.R3, C17.R5 (HAR entries are keyed by it) and C19.R1 (marbl frames carry
+// its first eight characters).
+func contextIDFreshRule(r *Report) {
+	n := 0
+	for _, f := range r.W.Funcs("") {
+		for _, a := range allocsOf(f, M+".Context") {
+			for _, st := range litFieldStores(a)["id"] {
+				n++
+				fresh := true
+				for _, l := range resolveAll(st.Val) {
+					if !isExtractOfCall(l, "M.newID") && !isCallValue(l, "M.newID") {
+						fresh = false
+					}
+				}
+				r.Decide("flow", fnName(f)+": the context ID is a fresh newID()", fresh, "id: <result of newID()>", "a context ID is built from something else than a fresh random ID (a per-session counter, a truncated session ID): IDs repeat across exchanges, and everything keyed by them (HAR entries, marbl frames) is mixed up", st.Pos())
+			}
+		}
+	}
+	if n == 0 {
+		r.Undecided("M.Context.id", "UNRESOLVED: no Context literal with an id")
+	}
 }
